@@ -131,7 +131,98 @@ def _run_crc(F, R, name, width, poly, exit_check):
         return 1, 0
 
 
+def _fold_site(fn):
+    """`message.iter().fold(init, step)` (also through .cloned()/.copied()): (block, terminator) when the function folds the
+    message that way and has no loop of its own, else None"""
+    from .mir import strip_refs
+    if fn.loops():
+        return None
+    hits = []
+    for b, t in fn.calls():
+        if (callee_of(t) or "").endswith("Iterator::fold") and "slice::Iter" in t.get("callee_full", ""):
+            ct = fn.call_term(t, b)
+            src = strip_refs(ct[2][0])
+            while src[0] == "call" and src[1] and src[1].split("::")[-1] in ("cloned", "copied", "iter", "into_iter") and src[2]:
+                src = strip_refs(src[2][0])
+            if src[:2] == ("arg", 1):
+                hits.append((b, t))
+    return hits[0] if len(hits) == 1 else None
+
+
+def _run_crc_fold(F, R, fn, name, width, poly, exit_check, site):
+    """init / step / exit for a function of the form exit(message.iter().fold(init, step))"""
+    from .mir import strip_refs
+    I = Interp(F, mode="bv", max_paths=20000, max_steps=2000000)
+    fb, ft = site
+    obligations = discharged = 0
+    ct = fn.call_term(ft, fb)
+    init = strip_refs(ct[2][1])
+    obligations += 1
+    if init[:2] == ("c", 0) and fn.dominates(fb, fn.return_blocks()[0]) and len(fn.return_blocks()) == 1:
+        discharged += 1
+        R.ok(fn, name + ":init", "fold starts from 0 and every path runs through it")
+    else:
+        R.bad(fn, name + ":init", "the fold over the message does not start from remainder 0 on every path (init %s)" % tstr(init), fn.loc(fb))
+    clo = strip_refs(ct[2][2])
+    if not (clo[0] == "agg" and clo[1] == "Closure"):
+        raise KeyError("the step of the fold in %s is not a closure literal" % name)
+    c = F.closure(clo[2])
+    cw = {"u8": 8, "u16": 16, "u32": 32}.get(fn.locals[ft["dest"]["l"]]["ty"])
+    if cw is None:
+        raise KeyError("the fold in %s does not produce an integer remainder" % name)
+    st = State()
+    crc0 = sym_int(I.vars, "c", cw)
+    byte = sym_int(I.vars, "b", 8)
+    ity = c.locals[3]["ty"] if len(c.locals) > 3 else "u8"
+    item = I.heap_alloc(st, byte) if "&" in ity else byte
+    outs = I.run(c, [TOP, crc0, item], st, 0)
+    ref = ref_step(bits_of(crc0)[:width], bits_of(byte), poly, width)
+    bad = None
+    npaths = 0
+    for (rv, s2) in outs:
+        npaths += 1
+        if not is_int(rv):
+            raise RuleUndecided("fold step of %s left the bit-vector fragment (remainder is %r)" % (name, rv))
+        nbits = bits_of(rv)
+        for j in range(width):
+            obligations += 1
+            if nbits[j] == TOPBIT:
+                raise RuleUndecided("bit %d of the remainder is not an affine form after one byte step of %s" % (j, name))
+            d = s2.reduce(nbits[j] ^ ref[j])
+            if d == 0:
+                discharged += 1
+            elif bad is None:
+                bad = (j, I.vars.name_of_mask(nbits[j]), I.vars.name_of_mask(ref[j]))
+    if npaths == 0:
+        R.bad(fn, name + ":body", "no path through the fold step", fn.loc(fb))
+    elif bad:
+        R.bad(fn, name + ":step", "one byte step of %s is not division by the polynomial %#x: remainder bit %d is %s, the specification gives %s" % (name, poly | (1 << width), bad[0], bad[1], bad[2]), fn.loc(fb))
+    else:
+        R.ok(fn, name + ":step", "fold step equals the reference %d-bit CRC step (poly %#x, MSB first) on all %d paths x %d bits" % (width, poly | (1 << width), npaths, width), fn.loc(fb))
+    st = State()
+    crcx = sym_int(I.vars, "x", cw)
+    outs = I.run(fn, [], st, 0, start=ft["target"], preset={ft["dest"]["l"]: crcx, 1: TOP})
+    okx = bool(outs)
+    for (rv, s2) in outs:
+        obligations += 1
+        if not is_int(rv):
+            okx = False
+            continue
+        e = exit_check(bits_of(crcx), bits_of(rv))
+        if e is None:
+            discharged += 1
+        else:
+            okx = False
+            R.bad(fn, name + ":exit", "final transformation of %s is wrong: %s" % (name, e), fn.loc(0))
+    if okx:
+        R.ok(fn, name + ":exit", "result derived from the remainder as specified")
+    return obligations, discharged
+
+
 def _run_crc_inner(F, R, fn, name, width, poly, exit_check):
+    site = _fold_site(fn)
+    if site is not None:
+        return _run_crc_fold(F, R, fn, name, width, poly, exit_check, site)
     I = Interp(F, mode="bv", max_paths=20000, max_steps=2000000)
     h, body, nb, nt, sw, kind = _loop_parts(fn)
     # the running remainder: the integer local initialised before the loop, updated inside it and read after it
